@@ -55,6 +55,9 @@ struct Ref
         if (v.empty()) rings.erase(rings.begin() + r);
     }
     void single(int a) { remove(a); rings.push_back({a}); }
+    bool lone(int a) const { return ring_size(a) == 1; }
+    // dlist_init of a node that is in a ring: the ring is abandoned (its other members are in no ring)
+    void abandon(int a) { int r = find(a); if (r >= 0) rings.erase(rings.begin() + r); rings.push_back({a}); }
     void ins_after(int x, int pos) { remove(x); int r = find(pos); auto &v = rings[r]; v.insert(std::find(v.begin(), v.end(), pos) + 1, x); }
     void ins_before(int x, int pos) { remove(x); int r = find(pos); auto &v = rings[r]; v.insert(std::find(v.begin(), v.end(), pos), x); }
     // contents of the list headed by h: the ring from h without h
@@ -168,6 +171,102 @@ static bool corrupt = false;   // links were poked by hand: only the bounded wal
 static Ref ref;
 static std::map<int, std::vector<int>> hlists; // hlist reference: head id -> node ids
 
+static std::map<int, std::vector<int>> slists; // slist reference: head id -> element ids
+static std::set<int> hidle;                     // hlist nodes with pprev == NULL (node_init'ed, not linked since)
+
+// container_of-style macros with a SIDE-EFFECTING argument: the argument must be evaluated exactly once
+// (one pop idiom = one pop).  Every helper counts its evaluations.
+static int g_evals = 0;
+static struct slist_head *counted_spop(struct slist_head *h) { g_evals++; return slist_pop_first(h); }
+static struct slist_head *counted_shead(struct slist_head *h) { g_evals++; return h; }
+static struct dlist_head *counted_dpop(struct dlist_head *h)
+{
+    g_evals++;
+    struct dlist_head *n = h->next;
+    if (n == h) return NULL;
+    dlist_del_init(n);
+    return n;
+}
+static struct hlist_node *counted_hpop(struct hlist_head *h)
+{
+    g_evals++;
+    struct hlist_node *n = h->first;
+    if (!n) return NULL;
+    hlist_del(n);
+    return n;
+}
+static std::string evals_msg() { return "the argument of a container_of macro was evaluated " + std::to_string(g_evals) + " times (contract: exactly once; one pop idiom = one pop)"; }
+
+// ENABLEDNESS: the calls the reference semantics admits, recomputed here from the harness's own
+// reference state (the Lean side proves `Admitted fam op <-> exists fam', AStep fam op fam'`).
+// "" = admitted, otherwise the reason.  Ops that are not listed are queries (always admitted).
+static std::string admitted_d(const Ref &R, const std::string &op, int a, int b)
+{
+    auto unlinked = [&](int x) { return !R.in_ring(x) || R.lone(x); };
+    if (op == "cadd_next" || op == "cadd_prev" || op == "cinsert_instead" || op == "cmove_sorted")
+    {
+        if (!unlinked(a)) return "the entry is linked (Linux contract: add/insert want an unlinked entry)";
+        if (a == b) return "entry == position";
+        if (!R.in_ring(b)) return "the position is in no ring";
+    }
+    else if (op == "cpop_entry" || op == "cdel" || op == "cdel_init" || op == "xunlink" || op == "xdel" || op == "xpop_front" || op == "xpop_back" ||
+             op == "xclear" || op == "xldel" || op == "xround_left")
+    { if (!R.in_ring(a)) return "the node is in no ring"; }
+    else if (op == "cmove" || op == "cmove_tail" || op == "xmove_next" || op == "xmove_prev" || op == "xmove_front" || op == "xmove_back")
+    { if (!R.in_ring(a) || !R.in_ring(b)) return "a node is in no ring"; }
+    else if (op == "xnew" || op == "xlnew") { if (!unlinked(a)) return "constructed over a linked node"; }
+    else if (op == "xsplice") { if (!R.in_ring(a) || !R.in_ring(b) || (a != b && R.find(a) == R.find(b))) return "heads in the same ring / in no ring"; }
+    return "";
+}
+static bool s_free(int a)
+{
+    for (auto &kv : slists) if (kv.first == a || std::find(kv.second.begin(), kv.second.end(), a) != kv.second.end()) return false;
+    return true;
+}
+static int s_owner(int a) // head of the list a is an element of, -1
+{
+    for (auto &kv : slists) if (std::find(kv.second.begin(), kv.second.end(), a) != kv.second.end()) return kv.first;
+    return -1;
+}
+static std::string admitted_s(const std::string &op, int a, int b)
+{
+    auto lone = [&](int x) { return slists.count(x) && slists[x].empty(); };
+    if (op == "sinit") { if (!s_free(a) && !slists.count(a)) return "slist_init of an element"; }
+    else if (op == "sadd" || op == "sxadd")
+    {
+        if (!s_free(a) && !lone(a)) return "the new node is in a list";
+        if (a == b) return "node == position";
+        if (!slists.count(b) && s_owner(b) < 0) return "the position is in no list";
+        if (op == "sxadd" && !slists.count(b)) return "add_first on a non-head";
+    }
+    else if (op == "spop" || op == "sxiter" || op == "spop_entry") { if (!slists.count(a)) return "not a list head"; }
+    else if (op == "smove_front")
+    {
+        if (!slists.count(b)) return "not a list head";
+        if (a == b) return "node == head";
+        if (!(s_owner(a) == b || s_free(a) || lone(a))) return "the node is in another list";
+    }
+    return "";
+}
+static bool h_linked(int a)
+{
+    for (auto &kv : hlists) if (std::find(kv.second.begin(), kv.second.end(), a) != kv.second.end()) return true;
+    return false;
+}
+static std::string admitted_h(const std::string &op, int a, const std::string &loc)
+{
+    if (op == "hnode_init") { if (h_linked(a)) return "hlist_node_init of a linked node"; }
+    else if (op == "hadd")
+    {
+        if (h_linked(a)) return "the node is linked";
+        int t = atoi(loc.c_str() + 1);
+        if (loc[0] == 'H') { if (!hlists.count(t)) return "not a head"; }
+        else if (!h_linked(t)) return "&p->next of a node that is not linked";
+    }
+    else if (op == "hdel") { if (!h_linked(a) && !hidle.count(a)) return "hlist_del of a node that was deleted before (stale pprev)"; }
+    return "";
+}
+
 static void free_all()
 {
     for (auto p : cn) free(p);
@@ -185,6 +284,8 @@ static void free_all()
     hn.clear(); hh.clear(); hitem.clear();
     ref = Ref();
     hlists.clear();
+    slists.clear();
+    hidle.clear();
 }
 
 static std::string dump()
@@ -356,21 +457,28 @@ static void oracle_x(out &o)
 }
 static void oracle_s(out &o)
 {
-    for (auto &ring : ref.rings)
+    std::set<int> seen;
+    for (auto &kv : slists)
     {
-        // only rings whose first element is a designated head are lists; walk from every element anyway
-        for (int hd : ring)
-        {
-            std::vector<int> want = ref.list(hd), fw;
-            struct slist_head *head = &sn[hd]->lnk, *it;
-            int guard = 0;
-            slist_for_each(it, head) { fw.push_back(atoi(sptr(it).c_str())); if (++guard > 10000) break; }
-            if (fw != want) return o.fail("slist traversal from " + std::to_string(hd) + " = " + ids(fw) + ", reference " + ids(want));
-            if (slist_size(head) != (int)want.size() || (bool)slist_empty(head) != want.empty()) return o.fail("slist_size/empty disagree");
-            for (size_t k = 0; k < sn.size(); k++)
-                if ((bool)slist_in(head, &sn[k]->lnk) != (std::find(want.begin(), want.end(), (int)k) != want.end()))
-                    return o.fail("slist_in disagrees");
-        }
+        int hd = kv.first;
+        const std::vector<int> &want = kv.second;
+        std::vector<int> fw;
+        struct slist_head *head = &sn[hd]->lnk, *it;
+        int guard = 0;
+        slist_for_each(it, head) { fw.push_back(atoi(sptr(it).c_str())); if (++guard > 10000) break; }
+        if (fw != want) return o.fail("slist traversal from " + std::to_string(hd) + " = " + ids(fw) + ", reference " + ids(want));
+        if (slist_size(head) != (int)want.size() || (bool)slist_empty(head) != want.empty()) return o.fail("slist_size/empty disagree");
+        for (size_t k = 0; k < sn.size(); k++)
+            if ((bool)slist_in(head, &sn[k]->lnk) != (std::find(want.begin(), want.end(), (int)k) != want.end()))
+                return o.fail("slist_in disagrees");
+        // lists share no node
+        if (!seen.insert(hd).second) return o.fail("a head is also an element");
+        for (int x : want) if (!seen.insert(x).second) return o.fail("node " + std::to_string(x) + " is in two lists");
+        // entry iteration through the member-offset macros
+        SItem *pos; std::vector<int> ent;
+        guard = 0;
+        slist_for_each_entry(pos, head, lnk) { ent.push_back(pos->key); if (++guard > 10000) break; }
+        if (ent != want) return o.fail("slist_for_each_entry disagrees");
     }
 }
 static void oracle_h(out &o)
@@ -385,7 +493,16 @@ static void oracle_h(out &o)
         // every linked node's pprev points at the location that points at it
         for (int n : kv.second)
             if (*hn[n]->pprev != hn[n]) return o.fail("hlist pprev of " + std::to_string(n) + " does not point back");
+        // the last node ends the chain, the first node's pprev is the head's `first` field
+        // … exactly: &head->first for the first node, &predecessor->next for every other one
+        for (size_t i = 0; i < kv.second.size(); i++)
+        {
+            struct hlist_node **want = i == 0 ? &hh[kv.first - hn.size()]->first : &hn[kv.second[i - 1]]->next;
+            if (hn[kv.second[i]]->pprev != want) return o.fail("pprev of node " + std::to_string(kv.second[i]) + " is not the location of its predecessor's link");
+        }
+        if (!kv.second.empty() && hn[kv.second.back()]->next != 0) return o.fail("the last node's next is not NULL");
     }
+    for (int n : hidle) if (hn[n]->pprev != 0) return o.fail("idle node " + std::to_string(n) + " has a non-NULL pprev");
 }
 
 static void run_op(const std::vector<std::string> &w, const std::string &, out &o)
@@ -449,11 +566,11 @@ static void run_op(const std::vector<std::string> &w, const std::string &, out &
                 p->key = i;
                 p->lnk.next = &p->lnk;
                 sn.push_back(p);
-                ref.single(i);
+                slists[i] = {};
             }
         else if (kind == 'h')
         {
-            for (int i = 0; i < n; i++) { auto *p = (HItem *)malloc(sizeof(HItem)); p->key = i; p->lnk.next = 0; p->lnk.pprev = 0; hitem.push_back(p); hn.push_back(&p->lnk); }
+            for (int i = 0; i < n; i++) { auto *p = (HItem *)malloc(sizeof(HItem)); p->key = i; p->lnk.next = 0; p->lnk.pprev = 0; hitem.push_back(p); hn.push_back(&p->lnk); hidle.insert(i); }
             for (int i = 0; i < A(3); i++) { auto *p = (struct hlist_head *)malloc(sizeof(struct hlist_head)); p->first = 0; hh.push_back(p); hlists[n + i] = {}; }
         }
     }
@@ -462,7 +579,8 @@ static void run_op(const std::vector<std::string> &w, const std::string &, out &
     {
         int a = A(1), b = w.size() > 2 ? A(2) : 0;
         struct dlist_head *pa = &cn[a]->lnk, *pb = w.size() > 2 && b < (int)cn.size() ? &cn[b]->lnk : nullptr;
-        if (op == "cinit") { dlist_init(pa); ref.single(a); }
+        if (!corrupt) { std::string why = admitted_d(ref, op, a, b); if (!why.empty()) o.fail("call not admitted by the reference semantics: " + why); }
+        if (op == "cinit") { if (ref.multi(a)) o.tag("init-abandons-ring"); dlist_init(pa); ref.abandon(a); }
         else if (op == "cadd_next") { dlist_add_next(pa, pb); ref.ins_after(a, b); o.tag("insert"); }
         else if (op == "cadd_prev") { dlist_add_prev(pa, pb); ref.ins_before(a, b); o.tag("insert"); }
         else if (op == "cdel") { if (ref.ring_size(a) == 1) o.tag("del-single"); dlist_del(pa); ref.remove(a); o.tag("remove"); }
@@ -487,6 +605,21 @@ static void run_op(const std::vector<std::string> &w, const std::string &, out &
             for (int x : ref.list(b)) if (a < x) { pos = x; break; }
             ref.ins_before(a, pos);
             o.tag("sorted-insert");
+        }
+        else if (op == "cpop_entry")
+        {
+            // the NULL-safe pop idiom on a dlist: entry of the node popped, NULL on an empty list
+            auto v = ref.list(a);
+            g_evals = 0;
+            CItem *e = mcast_out_or_null(counted_dpop(pa), CItem, lnk);
+            if (g_evals != 1) { o.fail(evals_msg()); val = "?"; }
+            else
+            {
+                val = e ? std::to_string(e->key) : "null";
+                if (v.empty() ? e != nullptr : e != cn[v.front()]) o.fail("pop idiom returned the wrong entry");
+            }
+            if (!v.empty()) ref.single(v.front());
+            o.tag(v.empty() ? "pop-idiom-empty" : "pop-idiom");
         }
         else if (op == "csize") val = std::to_string(dlist_size(pa));
         else if (op == "csize_rev") val = std::to_string(dlist_size_reversed(pa));
@@ -656,7 +789,15 @@ static void run_op(const std::vector<std::string> &w, const std::string &, out &
     else if (kind == 'x')
     {
         int a = A(1), b = w.size() > 2 ? A(2) : 0;
+        { std::string why = admitted_d(ref, op, a, b); if (!why.empty()) o.fail("call not admitted by the reference semantics: " + why); }
         if (op == "xnew") { xn[a] = new XItem(); xn[a]->key = a; ref.single(a); }
+        else if (op == "xrenew")
+        {
+            // a dlist_node constructed again at the address of an unlinked node (storage reuse)
+            if (!ref.lone(a)) o.fail("call not admitted by the reference semantics: constructed over a linked node");
+            new (&xn[a]->lnk) igris::dlist_node();
+            o.tag("ctor-over-unlinked");
+        }
         else if (op == "xdel") { if (ref.multi(a)) o.tag("destroy-linked"); delete xn[a]; xn[a] = nullptr; ref.remove(a); }
         else if (op == "xlnew") { xl[a - xnitems] = new XList(); ref.single(a); }
         else if (op == "xldel" || op == "xclear")
@@ -795,36 +936,94 @@ static void run_op(const std::vector<std::string> &w, const std::string &, out &
     else if (kind == 's')
     {
         int a = A(1), b = w.size() > 2 ? A(2) : 0;
-        if (op == "sinit") { slist_init(&sn[a]->lnk); ref.single(a); }
-        else if (op == "sadd") { slist_add(&sn[a]->lnk, &sn[b]->lnk); ref.ins_after(a, b); o.tag("insert"); }
+        std::string why_s = admitted_s(op, a, b); // judged on the state BEFORE the call, reported after the oracle
+        auto s_take = [&](int x) { int ow = s_owner(x); if (ow >= 0) { auto &v = slists[ow]; v.erase(std::find(v.begin(), v.end(), x)); } slists.erase(x); };
+        auto s_ins_after = [&](int x, int pos)
+        {
+            s_take(x);
+            if (slists.count(pos)) slists[pos].insert(slists[pos].begin(), x);
+            else { auto &v = slists[s_owner(pos)]; v.insert(std::find(v.begin(), v.end(), pos) + 1, x); }
+        };
+        if (op == "sinit")
+        {
+            if (slists.count(a) && !slists[a].empty()) o.tag("init-clears-list");
+            slist_init(&sn[a]->lnk); slists[a] = {};
+        }
+        else if (op == "sadd")
+        {
+            if (!slists.count(b)) o.tag("insert-after-element");
+            slist_add(&sn[a]->lnk, &sn[b]->lnk); s_ins_after(a, b); o.tag("insert");
+        }
         else if (op == "spop")
         {
-            auto v = ref.list(a);
+            auto v = slists[a];
             struct slist_head *r = slist_pop_first(&sn[a]->lnk);
             val = r ? sptr(r) : "null";
             if (v.empty()) { if (r) o.fail("slist_pop_first on empty list returned a node"); o.tag("pop-empty"); }
-            else { if (!r || atoi(sptr(r).c_str()) != v.front()) o.fail("slist_pop_first returned the wrong node"); ref.remove(v.front()); o.tag("remove"); }
+            else { if (!r || atoi(sptr(r).c_str()) != v.front()) o.fail("slist_pop_first returned the wrong node"); s_take(v.front()); o.tag("remove"); if (v.size() == 1) o.tag("pop-last"); }
+        }
+        else if (op == "spop_entry")
+        {
+            // b = 0: mcast_out_or_null(slist_pop_first(&head), T, lnk) (NULL-safe); b = 1: slist_pop_first_entry (non-empty lists)
+            auto v = slists[a];
+            g_evals = 0;
+            SItem *e;
+            if (b == 1 && !v.empty()) e = slist_pop_first_entry(counted_shead(&sn[a]->lnk), SItem, lnk);
+            else e = mcast_out_or_null(counted_spop(&sn[a]->lnk), SItem, lnk);
+            if (g_evals != 1) { o.fail(evals_msg()); val = "?"; }
+            else
+            {
+                val = e ? std::to_string(e->key) : "null";
+                if (v.empty() ? e != nullptr : e != sn[v.front()]) o.fail("pop idiom returned the wrong entry");
+            }
+            if (!v.empty()) s_take(v.front());
+            o.tag(v.empty() ? "pop-idiom-empty" : "pop-idiom");
+        }
+        else if (op == "smacros")
+        {
+            // every container_of-style macro of member.h / memberxx.h and the list headers with a cursor
+            // argument `*c++`: the cursor must advance by exactly one, the value is the entry / member of item a
+            std::vector<struct slist_head *> nodes(sn.size() + 2, nullptr);
+            std::vector<SItem *> objs(sn.size() + 2, nullptr);
+            for (size_t i = 0; i < sn.size(); i++) { nodes[i] = &sn[i]->lnk; objs[i] = sn[i]; }
+            nodes[sn.size()] = nodes[sn.size() + 1] = &sn[0]->lnk; objs[sn.size()] = objs[sn.size() + 1] = sn[0];
+            struct slist_head **c; SItem **oc;
+            std::string out; int bad = 0;
+            auto put = [&](const std::string &t) { out += (out.empty() ? "" : " ") + t; };
+#define NODE_MACRO(EXPR) { c = &nodes[a]; SItem *e = EXPR; if (c != &nodes[a] + 1) bad++; put(e ? std::to_string(e->key) : "null"); }
+#define OBJ_MACRO(EXPR) { oc = &objs[a]; struct slist_head *l = EXPR; if (oc != &objs[a] + 1) bad++; put(l ? sptr(l) : "null"); }
+            NODE_MACRO(mcast_out(*c++, SItem, lnk))
+            NODE_MACRO(mcast_out_or_null(*c++, SItem, lnk))
+            NODE_MACRO(slist_entry(*c++, SItem, lnk))
+            NODE_MACRO(dlist_entry(*c++, SItem, lnk))
+            NODE_MACRO(hlist_entry(*c++, SItem, lnk))
+            OBJ_MACRO(mcast_in(*oc++, lnk))
+            OBJ_MACRO(mcast_in_or_null(*oc++, lnk))
+            NODE_MACRO(member_container(*c++, &SItem::lnk))
+#undef NODE_MACRO
+#undef OBJ_MACRO
+            val = out;
+            if (bad) o.fail("a container_of macro evaluated its argument more than once (cursor advanced by more than one) in " + std::to_string(bad) + " macro(s)");
+            o.tag("macro-side-effect-arg");
         }
         else if (op == "smove_front")
         {
-            // igris::slist<T,m>::move_front on a list object whose head is private: build a
-            // wrapper list on the stack is impossible (head inside); so model node b as the
-            // head by running the same member code through a layout-compatible object
+            // igris::slist<T,m>::move_front on the list whose (only, first) member is the head node b
             SList *lst = reinterpret_cast<SList *>(&sn[b]->lnk);
-            if (ref.find(a) == ref.find(b)) o.tag("move-linked");
+            if (s_owner(a) == b) { o.tag("move-linked"); if (slists[b].front() == a) o.tag("move-first"); if (slists[b].back() == a) o.tag("move-last"); }
             lst->move_front(*sn[a]);
-            ref.ins_after(a, b);
+            if (s_owner(a) == b || s_free(a) || (slists.count(a) && slists[a].empty())) s_ins_after(a, b);
         }
         else if (op == "sxadd")
         {
             SList *lst = reinterpret_cast<SList *>(&sn[b]->lnk);
-            lst->add_first(*sn[a]); ref.ins_after(a, b); o.tag("insert");
+            lst->add_first(*sn[a]); s_ins_after(a, b); o.tag("insert");
         }
         else if (op == "sxiter")
         {
             SList *lst = reinterpret_cast<SList *>(&sn[a]->lnk);
             const SList *clst = lst;
-            std::vector<int> v1, v2, v3, v4, want = ref.list(a);
+            std::vector<int> v1, v2, v3, v4, want = slists[a];
             for (auto it = lst->begin(); it != lst->end(); ++it) v1.push_back(it->key);
             for (auto it = lst->begin(); it != lst->end(); it++) v2.push_back((*it).key);
             for (auto it = clst->begin(); it != clst->end(); ++it) v3.push_back(it->key);
@@ -838,25 +1037,29 @@ static void run_op(const std::vector<std::string> &w, const std::string &, out &
         else if (op == "slist") { std::vector<int> v; struct slist_head *it; slist_for_each(it, &sn[a]->lnk) v.push_back(atoi(sptr(it).c_str())); val = ids(v); }
         else val = "bad-op";
         oracle_s(o);
+        if (!why_s.empty()) o.fail("call not admitted by the reference semantics: " + why_s);
     }
     // ---------------- hlist
     else if (kind == 'h')
     {
         int a = A(1);
-        if (op == "hhead_init") { hlist_head_init(hh[a - hn.size()]); hlists[a] = {}; }
-        else if (op == "hnode_init") hlist_node_init(hn[a]);
+        { std::string why = admitted_h(op, a, w.size() > 2 ? w[2] : std::string("H0")); if (!why.empty()) o.fail("call not admitted by the reference semantics: " + why); }
+        if (op == "hhead_init") { if (!hlists[a].empty()) o.tag("init-clears-list"); hlist_head_init(hh[a - hn.size()]); hlists[a] = {}; }
+        else if (op == "hnode_init") { hlist_node_init(hn[a]); hidle.insert(a); }
         else if (op == "hadd")
         {
             const std::string &loc = w[2];
             int t = atoi(loc.c_str() + 1);
             struct hlist_node **pp = loc[0] == 'H' ? &hh[t - hn.size()]->first : &hn[t]->next;
+            if (!hidle.count(a)) o.tag("add-stale-node");
             hlist_add_next(hn[a], pp);
-            if (loc[0] == 'H') hlists[t].insert(hlists[t].begin(), a);
+            hidle.erase(a);
+            if (loc[0] == 'H') { if (hlists[t].empty()) o.tag("add-to-empty"); hlists[t].insert(hlists[t].begin(), a); }
             else
                 for (auto &kv : hlists)
                 {
                     auto it = std::find(kv.second.begin(), kv.second.end(), t);
-                    if (it != kv.second.end()) { kv.second.insert(it + 1, a); break; }
+                    if (it != kv.second.end()) { if (it + 1 == kv.second.end()) o.tag("add-after-last"); kv.second.insert(it + 1, a); break; }
                 }
             o.tag("insert");
         }
@@ -867,9 +1070,27 @@ static void run_op(const std::vector<std::string> &w, const std::string &, out &
             for (auto &kv : hlists)
             {
                 auto it = std::find(kv.second.begin(), kv.second.end(), a);
-                if (it != kv.second.end()) { kv.second.erase(it); was = true; break; }
+                if (it != kv.second.end())
+                {
+                    if (kv.second.size() == 1) o.tag("del-only"); else if (it == kv.second.begin()) o.tag("del-first"); else if (it + 1 == kv.second.end()) o.tag("del-last");
+                    kv.second.erase(it); was = true; break;
+                }
             }
             o.tag(was ? "remove" : "del-unlinked");
+        }
+        else if (op == "hpop_entry")
+        {
+            auto v = hlists[a];
+            g_evals = 0;
+            HItem *e = mcast_out_or_null(counted_hpop(hh[a - hn.size()]), HItem, lnk);
+            if (g_evals != 1) { o.fail(evals_msg()); val = "?"; }
+            else
+            {
+                val = e ? std::to_string(e->key) : "null";
+                if (v.empty() ? e != nullptr : e != hitem[v.front()]) o.fail("pop idiom returned the wrong entry");
+            }
+            if (!v.empty()) hlists[a].erase(hlists[a].begin());
+            o.tag(v.empty() ? "pop-idiom-empty" : "pop-idiom");
         }
         else if (op == "hentries")
         {
@@ -920,7 +1141,14 @@ static void gen_c_case(rng &r, int n, int nops)
             g.poisoned.erase(a);
             if (nx) g.ref.ins_after(a, b); else g.ref.ins_before(a, b);
         }
-        else if (c < 30) { int a = inring(); if (a < 0) continue; emit("cdel " + std::to_string(a)); g.ref.remove(a); g.poisoned.insert(a); }
+        else if (c < 28) { int a = inring(); if (a < 0) continue; emit("cdel " + std::to_string(a)); g.ref.remove(a); g.poisoned.insert(a); }
+        else if (c < 30)
+        {
+            int a = inring(); if (a < 0) continue;
+            emit("cpop_entry " + std::to_string(a));
+            auto v = g.ref.list(a);
+            if (!v.empty()) g.ref.single(v.front());
+        }
         else if (c < 40) { int a = inring(); if (a < 0) continue; emit("cdel_init " + std::to_string(a)); g.ref.single(a); }
         else if (c < 65)
         {
@@ -952,7 +1180,13 @@ static void gen_c_case(rng &r, int n, int nops)
             for (int x : g.ref.list(b)) if (a < x) { pos = x; break; }
             g.ref.ins_before(a, pos);
         }
-        else if (c < 81) { int a = free_node(); if (a < 0) continue; emit("cinit " + std::to_string(a)); g.poisoned.erase(a); g.ref.single(a); }
+        else if (c < 81)
+        {
+            // dlist_init of an unlinked node, or (1 in 4) of a node that is in a ring: the ring is abandoned
+            int a = r.chance(25) ? inring() : free_node();
+            if (a < 0) continue;
+            emit("cinit " + std::to_string(a)); g.poisoned.erase(a); g.ref.abandon(a);
+        }
         else
         {
             int a = inring(), b = inring();
@@ -990,7 +1224,8 @@ static void gen_x_case(rng &r, int n, int k, int nops)
             for (int x : g.ref.list(a)) g.ref.single(x);
             if (del) { live.erase(a); g.ref.remove(a); }
         }
-        else if (c < 35) { int a = live_any(); if (a < 0) continue; emit("xunlink " + std::to_string(a)); g.ref.single(a); }
+        else if (c < 33) { int a = live_any(); if (a < 0) continue; emit("xunlink " + std::to_string(a)); g.ref.single(a); }
+        else if (c < 35) { int a = live_item(); if (a < 0 || !g.ref.lone(a)) continue; emit("xrenew " + std::to_string(a)); }
         else if (c < 42)
         {
             int a = live_list(); if (a < 0) continue;
@@ -1083,108 +1318,144 @@ static void gen_x_case(rng &r, int n, int k, int nops)
 
 static void gen_s_case(rng &r, int n, int nops)
 {
-    G g(r);
-    emit("reset s " + std::to_string(n));
-    for (int i = 0; i < n; i++) g.ref.single(i);
-    // nodes 0 and 1 are list heads; a node that was popped keeps a stale next
-    // pointer and counts as "in no list" (ring of its own in the reference only
-    // after sinit)
-    std::set<int> stale;
+    auto S = [](long v) { return std::to_string(v); };
+    emit("reset s " + S(n));
+    // own reference: head -> elements; initially every node is an empty list of its own.  A node that
+    // was popped / orphaned by re-initialising its head keeps a stale next and is in no list.
+    std::map<int, std::vector<int>> L;
+    for (int i = 0; i < n; i++) L[i] = {};
+    auto owner = [&](int x) { for (auto &kv : L) if (std::find(kv.second.begin(), kv.second.end(), x) != kv.second.end()) return kv.first; return -1; };
+    auto is_free = [&](int x) { return !L.count(x) && owner(x) < 0; };
+    auto unlinked = [&](int x) { return is_free(x) || (L.count(x) && L[x].empty()); };
+    auto take = [&](int x) { int ow = owner(x); if (ow >= 0) { auto &v = L[ow]; v.erase(std::find(v.begin(), v.end(), x)); } L.erase(x); };
+    auto pick_head = [&]() { if (r.chance(85)) { int h = (int)r.below(2); if (L.count(h)) return h; } std::vector<int> hs; for (auto &kv : L) hs.push_back(kv.first); return hs.empty() ? -1 : hs[r.below(hs.size())]; };
     for (int q = 0; q < nops; q++)
     {
         int c = (int)r.below(100);
-        int head = (int)r.below(2);
-        if (c < 6)
+        int head = pick_head();
+        if (c < 8)
         {
-            // slist_init of a node that is in no list (popped: stale next) or alone
-            int a = 2 + (int)r.below(n - 2);
-            if (g.ref.multi(a)) continue;
-            emit("sinit " + std::to_string(a));
-            stale.erase(a);
-            g.ref.single(a);
+            // slist_init of a node that is in no list, or of a head (1 in 3: a non-empty one = clear)
+            int a = (int)r.below(n);
+            if (!(is_free(a) || L.count(a))) continue;
+            if (L.count(a) && !L[a].empty() && !r.chance(33)) continue;
+            emit("sinit " + S(a));
+            L[a] = {};
         }
-        else if (c < 40)
+        else if (c < 42)
         {
-            int a = 2 + (int)r.below(n - 2);
-            if (g.ref.multi(a)) continue;
-            emit(std::string(r.chance(30) ? "sxadd " : "sadd ") + std::to_string(a) + " " + std::to_string(head));
-            stale.erase(a);
-            g.ref.ins_after(a, head);
+            if (head < 0) continue;
+            int a = (int)r.below(n);
+            if (!unlinked(a) || a == head) continue;
+            // after the head (slist_add / add_first) or after an element (30 %, biased to the last one)
+            int pos = head;
+            bool cpp = false;
+            if (!L[head].empty() && r.chance(30)) pos = r.chance(40) ? L[head].back() : L[head][r.below(L[head].size())];
+            else cpp = r.chance(30);
+            if (a == pos) continue;
+            emit(std::string(cpp ? "sxadd " : "sadd ") + S(a) + " " + S(pos));
+            take(a);
+            if (pos == head) L[head].insert(L[head].begin(), a);
+            else { auto &v = L[head]; v.insert(std::find(v.begin(), v.end(), pos) + 1, a); }
         }
         else if (c < 60)
         {
-            emit("spop " + std::to_string(head));
-            auto v = g.ref.list(head);
-            if (!v.empty()) { g.ref.remove(v.front()); stale.insert(v.front()); }
+            if (head < 0) continue;
+            if (r.chance(40)) emit("spop_entry " + S(head) + " " + S((int)r.below(2)));
+            else emit("spop " + S(head));
+            if (!L[head].empty()) L[head].erase(L[head].begin());
         }
-        else if (c < 75)
+        else if (c < 78)
         {
-            // move_front: a node of THIS list (any position) or a node in no list
-            int a = 2 + (int)r.below(n - 2);
-            if (g.ref.multi(a) && g.ref.find(a) != g.ref.find(head)) continue;
-            emit("smove_front " + std::to_string(a) + " " + std::to_string(head));
-            stale.erase(a);
-            g.ref.ins_after(a, head);
+            // move_front: an element of THIS list (first / last / any), a node in no list, an empty list
+            if (head < 0) continue;
+            int a;
+            auto &v = L[head];
+            int mode = (int)r.below(10);
+            if (!v.empty() && mode < 6) a = mode == 0 ? v.front() : mode <= 2 ? v.back() : v[r.below(v.size())];
+            else { a = (int)r.below(n); if (!unlinked(a) || a == head) continue; }
+            emit("smove_front " + S(a) + " " + S(head));
+            take(a);
+            L[head].insert(L[head].begin(), a);
         }
         else
         {
-            int qi = (int)r.below(4);
-            if (qi == 3) emit("sxiter " + std::to_string(head));
-            else if (qi == 0) emit("ssize " + std::to_string(head));
-            else if (qi == 1) emit("slist " + std::to_string(head));
-            else emit("sin " + std::to_string(head) + " " + std::to_string(2 + (int)r.below(n - 2)));
+            if (head < 0) continue;
+            int qi = (int)r.below(5);
+            if (qi == 4) emit("smacros " + S((int)r.below(n)));
+            else if (qi == 3) emit("sxiter " + S(head));
+            else if (qi == 0) emit("ssize " + S(head));
+            else if (qi == 1) emit("slist " + S(head));
+            else emit("sin " + S(head) + " " + S((int)r.below(n)));
         }
     }
 }
 
 static void gen_h_case(rng &r, int n, int k, int nops)
 {
-    emit("reset h " + std::to_string(n) + " " + std::to_string(k));
+    auto S = [](long v) { return std::to_string(v); };
+    emit("reset h " + S(n) + " " + S(k));
     std::map<int, std::vector<int>> L;
-    std::set<int> linked;
-    for (int i = 0; i < k; i++) { L[n + i] = {}; emit("hhead_init " + std::to_string(n + i)); }
+    std::set<int> linked, idle;       // neither = stale (deleted and not re-initialised / orphaned)
+    for (int i = 0; i < n; i++) idle.insert(i);
+    for (int i = 0; i < k; i++) { L[n + i] = {}; emit("hhead_init " + S(n + i)); }
     for (int q = 0; q < nops; q++)
     {
         int c = (int)r.below(100);
-        if (c < 4)
+        if (c < 5)
         {
-            // re-initialising an empty head changes nothing
+            // re-initialising a head: an empty one (nothing changes) or (1 in 3) a non-empty one: its
+            // elements are in no list afterwards and their pprev is stale
             int h = n + (int)r.below(k);
-            if (L[h].empty()) emit("hhead_init " + std::to_string(h));
+            if (!L[h].empty() && !r.chance(33)) continue;
+            emit("hhead_init " + S(h));
+            for (int x : L[h]) linked.erase(x);
+            L[h].clear();
         }
         else if (c < 50)
         {
             int a = (int)r.below(n);
             if (linked.count(a)) continue;
             int h = n + (int)r.below(k);
-            // a node that was deleted keeps a stale pprev: hlist_node_init before re-adding is not required by hlist_add_next
-            if (L[h].empty() || r.chance(40)) { emit("hadd " + std::to_string(a) + " H" + std::to_string(h)); L[h].insert(L[h].begin(), a); }
+            // a stale node may be added again without hlist_node_init: hlist_add_next overwrites both fields
+            if (L[h].empty() || r.chance(40)) { emit("hadd " + S(a) + " H" + S(h)); L[h].insert(L[h].begin(), a); }
             else
             {
-                size_t pos = r.below(L[h].size());
-                emit("hadd " + std::to_string(a) + " N" + std::to_string(L[h][pos]));
+                size_t pos = r.chance(40) ? L[h].size() - 1 : r.below(L[h].size());
+                emit("hadd " + S(a) + " N" + S(L[h][pos]));
                 L[h].insert(L[h].begin() + pos + 1, a);
             }
-            linked.insert(a);
+            linked.insert(a); idle.erase(a);
         }
-        else if (c < 80)
+        else if (c < 78)
         {
-            // hlist_del of a linked node, or of a node that was never linked (pprev == 0: no-op)
+            // hlist_del of a linked node (first / last / any), or of an idle node (pprev == 0: no-op);
+            // never of a stale one
             int a = (int)r.below(n);
-            bool never = true;
             if (linked.count(a))
             {
-                never = false;
                 for (auto &kv : L) { auto it = std::find(kv.second.begin(), kv.second.end(), a); if (it != kv.second.end()) { kv.second.erase(it); break; } }
                 linked.erase(a);
-                emit("hdel " + std::to_string(a));
-                // after deletion pprev is stale: make the node "never linked" again
-                emit("hnode_init " + std::to_string(a));
+                emit("hdel " + S(a));
+                // half of the time the node is re-initialised at once, otherwise it stays stale
+                if (r.chance(50)) { emit("hnode_init " + S(a)); idle.insert(a); }
             }
-            else if (r.chance(30)) emit("hdel " + std::to_string(a)); // pprev == 0: must be a no-op
-            (void)never;
+            else if (idle.count(a) && r.chance(40)) emit("hdel " + S(a));
         }
-        else emit(std::string(r.chance(50) ? "hentries " : "hlist ") + std::to_string(n + (int)r.below(k)));
+        else if (c < 82)
+        {
+            int a = (int)r.below(n);
+            if (linked.count(a)) continue;
+            emit("hnode_init " + S(a)); idle.insert(a);
+        }
+        else if (c < 86)
+        {
+            // the NULL-safe pop idiom: the first node leaves the list (stale afterwards), NULL on an empty list
+            int h = n + (int)r.below(k);
+            emit("hpop_entry " + S(h));
+            if (!L[h].empty()) { linked.erase(L[h].front()); L[h].erase(L[h].begin()); }
+        }
+        else emit(std::string(r.chance(50) ? "hentries " : "hlist ") + S(n + (int)r.below(k)));
     }
 }
 
